@@ -74,6 +74,13 @@ CLAIMED = {
             "the host-client map and the new HostClient are chosen by that flag, TLS dials return a crypto/tls-wrapped connection using the config cached for the dialled address.",
             "A custom dialer's connection with a Handshake() method is taken to be TLS (documented convention); ConfigureClient callbacks may change IsTLS, which is why the check in doNonNilReqResp carries the property.",
             "deductive verification in skeleton mode: preconditions at the transport / dial calls"),
+
+    "C05": ("proof",
+            "Exact-mode contract proofs: removeNewLines / normalizeHeaderKey leave no CR or LF for every input; a type-invariant sweep enumerates, from the current source, every method of RequestHeader / "
+            "ResponseHeader / header that assigns a directly stored field and proves the field CR/LF-free afterwards; every setter that reaches the multi-valued storage layer is proved to pass it CR/LF-free key and value.",
+            "The []argsKV storage functions and setSpecialHeader are trusted contracts (bodies not verified, modifies lists read off the code); serialisation (AppendBytes) writing the stored fields verbatim, "
+            "trailers and fasthttpproxy are not decided yet; SetCanonical assumes its documented precondition (canonical, hence clean, key).",
+            "deductive verification: quantified loop invariants over a byte-region heap, type-invariant sweep, call-site preconditions"),
 }
 
 NOT_APPLICABLE = {
